@@ -55,7 +55,7 @@ def match_known(known, prop, clause, sig):
 
 
 # ------------------------------------------------------------------------------------------ child execution
-def _child_main(check, plan, wfd):
+def _child_main(check, plan, wfd, gen=None):
     from . import sched as S
 
     def emit(res):
@@ -72,14 +72,23 @@ def _child_main(check, plan, wfd):
         emit({'harness_error': kind, 'detail': detail[-6000:], 'ring': (s.ring[-60:] if s else [])})
 
     try:
+        if plan is None:
+            # plan generation happens in the child as well: it runs library code (model MDIB) and must not leave
+            # traces (e.g. modified class-level defaults) in the long-lived worker
+            plan = _plan_for(check, *gen)
         res = check.execute(plan, on_abort)
+        if gen is not None and (res.get('violations') or res.get('harness_error') or gen[2] < 3):
+            res['plan'] = plan
     except BaseException:  # noqa: BLE001
         res = {'harness_error': 'EXCEPTION', 'detail': traceback.format_exc()[-6000:]}
+        if plan is not None:
+            res['plan'] = plan
     emit(res)
 
 
-def fork_execute(check, plan, wall_timeout=None):
-    """run one plan in a forked child; returns the result dict (never raises for child problems)"""
+def fork_execute(check, plan, wall_timeout=None, gen=None):
+    """run one plan (or generate it from gen=(base_seed, tier, index) first) in a forked child; returns the result
+    dict (never raises for child problems)"""
     wall_timeout = wall_timeout or RUN_WALL_TIMEOUT
     rfd, wfd = os.pipe()
     t0 = time.perf_counter()
@@ -88,7 +97,7 @@ def fork_execute(check, plan, wall_timeout=None):
         try:
             os.close(rfd)
             signal.signal(signal.SIGINT, signal.SIG_DFL)
-            _child_main(check, plan, wfd)
+            _child_main(check, plan, wfd, gen)
         finally:
             os._exit(1)
     os.close(wfd)
@@ -153,14 +162,12 @@ def _worker_batch(check_id, tier, base_seed, indices, deadline, wfd):
         if time.monotonic() > deadline:
             break
         try:
-            plan = _plan_for(check, base_seed, tier, i)
-            res = fork_execute(check, plan)
+            res = fork_execute(check, None, gen=(base_seed, tier, i))
         except BaseException:  # noqa: BLE001
-            plan = {'run_index': i}
             res = {'harness_error': 'WORKER_EXCEPTION', 'detail': traceback.format_exc()[-4000:]}
         rec = {'i': i, 'res': res}
-        if res.get('violations') or res.get('harness_error') or i < 3:
-            rec['plan'] = plan
+        if 'plan' in res:
+            rec['plan'] = res.pop('plan')
         out.write(json.dumps(rec, default=repr) + '\n')
         out.flush()
     out.close()
@@ -353,10 +360,30 @@ def run_check(check_id: str, tier: str, base_seed: int, out=sys.stdout):
     wall = time.monotonic() - t0
     exit_code = 0
     replay_paths = []
-    for (clause, sig), n in sorted(known_hits.items()):
-        e = match_known(known, check_id, clause, sig)
-        desc = e.get('description', '') if e else ''
-        print(f'KNOWN-FINDING: property={check_id} clause={clause} sig={sig} hits={n} {desc}', file=out)
+    open_known = [e for e in known if e.get('status') == 'open' and e.get('property') == check_id]
+    witness_results = {}
+    for e in open_known:
+        hits = sum(n for (c, sg), n in known_hits.items() if match_known([e], check_id, c, sg) is not None)
+        wit = e.get('witness')
+        rep = ''
+        if wit:
+            wpath = os.path.join(VERIF, wit)
+            try:
+                with open(wpath) as f:
+                    wplan = json.load(f)['plan']
+                pid, rfd = _spawn(_replay_task, check_id, wplan)
+                wrecs, _ = _collect([(pid, rfd)], time.monotonic() + RUN_WALL_TIMEOUT + 60)
+                wres = wrecs[0]['res'] if wrecs else {}
+                kn = wres.get('known') or []
+                ok = any(match_known([e], check_id, k['clause'], k['sig']) is not None for k in kn) or \
+                    any(match_known([e], check_id, v.get('clause'), v.get('sig')) is not None
+                        for v in wres.get('violations') or [])
+                rep = f' witness={wit} reproduced={"yes" if ok else "NO"}'
+                witness_results[wit] = ok
+            except Exception as ex:  # noqa: BLE001
+                rep = f' witness={wit} error={ex!r}'
+        print(f'KNOWN-FINDING: property={check_id} clause={e.get("clause")} sig={e.get("sig")} hits_in_this_batch={hits}'
+              f'{rep} :: {e.get("description", "")}', file=out)
     if harness_errors:
         exit_code = 2
         for rec in harness_errors[:5]:
@@ -414,6 +441,7 @@ def run_check(check_id: str, tier: str, base_seed: int, out=sys.stdout):
             'components': meta.get('components'),
             'workers': nw,
             'known_finding_hits': {f'{c}|{s}': n for (c, s), n in known_hits.items()},
+            'known_finding_witnesses_reproduced': witness_results,
             'harness_errors': len(harness_errors),
             'workers_killed_at_deadline': killed,
         },
